@@ -1,0 +1,9 @@
+// SPDX-License-Identifier: MIT
+
+//go:build !verif
+
+package mqtt
+
+// verifPoint is a named schedule point used by the runtime-verification harness.
+// Without the "verif" build tag it is an empty function that the compiler inlines away.
+func verifPoint(string, string) {}
